@@ -23,6 +23,9 @@ fn digest_outcomes(outs: &[crate::sandbox::Outcome]) -> u64 {
             buf.extend_from_slice(v);
         }
         h = h.rotate_left(7) ^ rng::hash_bytes(&buf) ^ o.trace_hash.rotate_left(29);
+        if std::env::var("SELFTEST_VERBOSE").is_ok() {
+            eprintln!("STEP tuple={:016x} trace={:016x} exit={:?} files={:?} stderr={}", rng::hash_bytes(&buf), o.trace_hash, t.exit, t.files.iter().map(|(k, v)| (k.clone(), rng::hash_bytes(v))).collect::<Vec<_>>(), String::from_utf8_lossy(&t.stderr).chars().take(80).collect::<String>());
+        }
     }
     h
 }
@@ -68,7 +71,11 @@ pub fn sample_cases(ctx: &Ctx, n: usize) -> Vec<Case> {
 
 pub fn run(ctx: &Ctx, n: usize) -> i32 {
     let cases = sample_cases(ctx, n);
-    let (d1, st1, _, _) = par_map(ctx, &cases, |w, _, c| digest_outcomes(&w.run_pipeline(c)));
+    let (d1x, st1, _, _) = par_map(ctx, &cases, |w, _, c| {
+        let o = w.run_pipeline(c);
+        (digest_outcomes(&o), o.iter().map(|x| format!("{:?}/{:016x}/{}ev", x.exit, x.trace_hash, x.events.len())).collect::<Vec<_>>().join(","))
+    });
+    let d1: Vec<u64> = d1x.iter().map(|x| x.0).collect();
     // second pass in reverse order: different workers, different sandbox directories
     let rev: Vec<Case> = cases.iter().rev().cloned().collect();
     let (mut d2, _st2, _, _) = par_map(ctx, &rev, |w, _, c| digest_outcomes(&w.run_pipeline(c)));
@@ -85,6 +92,11 @@ pub fn run(ctx: &Ctx, n: usize) -> i32 {
     let mut overall: u64 = 0;
     for d in &d1 {
         overall = overall.rotate_left(5) ^ d;
+    }
+    // SELFTEST_DUMP=file: one line per case (digest, name), to find which case differs between processes
+    if let Ok(f) = std::env::var("SELFTEST_DUMP") {
+        let lines: Vec<String> = d1.iter().zip(cases.iter()).map(|(d, c)| format!("{:016x} {} {:?}", d, c.name, c.steps.iter().map(|s| s.plan.clone()).collect::<Vec<_>>())).zip(d1x.iter()).map(|(l, x)| format!("{} || {}", l, x.1)).collect();
+        let _ = std::fs::write(f, lines.join("\n"));
     }
     println!("selftest-determinism: cases={} runs={} (x2) mismatches={} digest={:016x} key-served-runs={}/{}", cases.len(), st1.runs, mismatches, overall, st1.probes.get("getrandom-served").cloned().unwrap_or(0), st1.runs);
     if mismatches > 0 {
